@@ -27,6 +27,9 @@ func translate(p *pkg, cfg fnCfg) (lean string, uses []string, reason string) {
 		}
 		return true
 	})
+	if g.sig.threaded {
+		g.recv = g.sig.params[0].name // the state is threaded: mutated here, returned at every exit
+	}
 	g.al = analyse(g)
 	g.push(true)
 	head := "def " + g.sig.lean
@@ -35,13 +38,14 @@ func translate(p *pkg, cfg fnCfg) (lean string, uses []string, reason string) {
 	}
 	g.ind = 1
 	var muts []string
-	for _, q := range g.sig.params {
+	for i, q := range g.sig.params {
 		if p.isStruct(q.typ) {
 			g.uses[strings.TrimPrefix(q.typ, "*")] = true
 		}
 		name := g.declare(q.name, q.typ)
 		head += fmt.Sprintf(" (%s : %s)", name, p.leanType(q.typ))
-		if assigned(g.fd.Body, q.name) { // Lean parameters are immutable: re-bind the assigned ones
+		// Lean parameters are immutable: re-bind the assigned ones, and the threaded receiver
+		if assigned(g.fd.Body, q.name) || i == 0 && g.recv == q.name {
 			muts = append(muts, "let mut "+name+" := "+name)
 		}
 	}
@@ -61,7 +65,7 @@ func translate(p *pkg, cfg fnCfg) (lean string, uses []string, reason string) {
 	}
 	g.block(g.fd.Body.List)
 	if len(g.sig.results) == 0 {
-		g.emit("return ()")
+		g.ret(&ast.ReturnStmt{Return: g.fd.Body.Rbrace})
 	}
 	if g.loop != len(cfg.Fuel) {
 		g.fail(g.fd, "%d fuel expressions configured, %d `for cond` loops found", len(cfg.Fuel), g.loop)
@@ -132,6 +136,50 @@ func (g *gen) isDropped(e ast.Expr) bool { // logging.*(…) and runtime.*(…)
 	return false
 }
 
+// mutexCall: x.f.Lock() / Unlock() / RLock() / RUnlock() on a field DECLARED sync.Mutex or sync.RWMutex.
+// Dropped (sequential semantics: one goroutine, no re-entrant locking); deferred: unlocks only.
+func (g *gen) mutexCall(e ast.Expr, deferred bool) bool {
+	c, _ := e.(*ast.CallExpr)
+	if c == nil || len(c.Args) != 0 {
+		return false
+	}
+	m, _ := c.Fun.(*ast.SelectorExpr)
+	if m == nil || !has([]string{"Unlock", "RUnlock"}, m.Sel.Name) && (deferred || !has([]string{"Lock", "RLock"}, m.Sel.Name)) {
+		return false
+	}
+	if f, _ := m.X.(*ast.SelectorExpr); f != nil {
+		if x, _ := f.X.(*ast.Ident); x != nil {
+			b, _ := g.lookup(x.Name)
+			ft := g.p.fieldType(b.typ, f.Sel.Name)
+			return ft == "sync.Mutex" || ft == "sync.RWMutex"
+		}
+	}
+	return false
+}
+
+// threadedCall: `recv.M(args)` as a statement, M a method that mutates its receiver:  recv ← T_M recv args
+func (g *gen) threadedCall(c *ast.CallExpr) bool {
+	m, _ := c.Fun.(*ast.SelectorExpr)
+	if m == nil {
+		return false
+	}
+	x, _ := m.X.(*ast.Ident)
+	if x == nil {
+		return false
+	}
+	b, local := g.lookup(x.Name)
+	s := g.p.sigs[strings.TrimPrefix(b.typ, "*")+"."+m.Sel.Name]
+	if !local || s == nil || !s.threaded {
+		return false
+	}
+	if x.Name != g.recv || len(s.results) != 0 {
+		g.fail(c, "%s mutates its receiver: supported only without results and on the calling method's own receiver", s.lean)
+	}
+	code, _, _ := g.callListed(c, s, m.X)
+	g.emit(b.lean + " ← " + code)
+	return true
+}
+
 func (g *gen) stmt(s ast.Stmt) {
 	switch s := s.(type) {
 	case *ast.ExprStmt:
@@ -146,13 +194,38 @@ func (g *gen) stmt(s ast.Stmt) {
 			g.emit("-- dropped: " + litComment(typeStr(s.X)))
 			return
 		}
+		if g.mutexCall(s.X, false) {
+			g.emit("-- dropped: " + typeStr(s.X))
+			return
+		}
 		if c, ok := s.X.(*ast.CallExpr); ok {
+			if g.threadedCall(c) {
+				return
+			}
 			if code, _, act := g.call(c); act {
 				g.emit("let _ ← " + code)
 				return
 			}
 		}
 		g.fail(s, "expression statement %s", typeStr(s.X))
+	case *ast.DeferStmt: // only `defer x.mu.Unlock()`: with the Lock dropped, running it at exit does nothing
+		if !g.mutexCall(s.Call, true) {
+			g.fail(s, "defer %s", typeStr(s.Call))
+		}
+		g.emit("-- dropped: " + typeStr(s))
+	case *ast.SendStmt:
+		// recv.f <- v on a configured queue field of the threaded receiver: append at the tail.
+		// (Go evaluates the channel operand, then the value, then communicates; blocking is not modelled.)
+		if sel, _ := s.Chan.(*ast.SelectorExpr); sel != nil {
+			x, _ := sel.X.(*ast.Ident)
+			if b, _ := g.lookup(g.recv); x != nil && x.Name == g.recv && g.p.fieldType(b.typ, sel.Sel.Name) == "chan string" {
+				v, vt := g.expr(s.Value, "string")
+				g.unify(s, vt, "string")
+				g.emit(fmt.Sprintf("%s := { %s with %s := %s.%s ++ [%s] }", b.lean, b.lean, sel.Sel.Name, b.lean, sel.Sel.Name, strip(v)))
+				return
+			}
+		}
+		g.fail(s, "send on %s: only sends on a configured queue field of the receiver are supported", typeStr(s.Chan))
 	case *ast.AssignStmt:
 		g.assign(s)
 	case *ast.IncDecStmt:
@@ -436,6 +509,10 @@ func (g *gen) ret(s *ast.ReturnStmt) {
 	default:
 		g.fail(s, "return of %d values for %d results", len(s.Results), len(rs))
 	}
+	if g.recv != "" { // the current value of the threaded receiver comes first
+		b, _ := g.lookup(g.recv)
+		vals = append([]string{b.lean}, vals...)
+	}
 	switch len(vals) {
 	case 0:
 		g.emit("return ()")
@@ -476,9 +553,9 @@ func (g *gen) lhs(s *ast.AssignStmt, e ast.Expr) lval {
 		}
 	case *ast.SelectorExpr:
 		if x, ok := e.X.(*ast.Ident); ok {
-			if b, ok := g.lookup(x.Name); ok && g.p.fieldType(b.typ, e.Sel.Name) != "" {
+			if b, ok := g.lookup(x.Name); ok && g.p.valueField(b.typ, e.Sel.Name) != "" {
 				g.al.checkFieldStore(g, s, x.Name)
-				return lval{kind: "field", name: b.lean, field: e.Sel.Name, typ: g.p.fieldType(b.typ, e.Sel.Name)}
+				return lval{kind: "field", name: b.lean, field: e.Sel.Name, typ: g.p.valueField(b.typ, e.Sel.Name)}
 			}
 		}
 	case *ast.IndexExpr:
@@ -490,9 +567,9 @@ func (g *gen) lhs(s *ast.AssignStmt, e ast.Expr) lval {
 		lv := lval{kind: "elem", name: base.name, field: base.field, ctyp: base.typ}
 		var it string
 		switch {
-		case base.typ == "map[string]string":
+		case base.typ == "map[string]string" || base.typ == "map[string]bool":
 			lv.index, it = g.expr(e.Index, "string")
-			lv.typ = "string"
+			lv.typ = base.typ[len("map[string]"):]
 			g.unify(e, it, "string")
 		case strings.HasPrefix(base.typ, "[]"):
 			lv.index, it = g.expr(e.Index, "int")
@@ -544,6 +621,8 @@ func (g *gen) store(n ast.Node, lv lval, code, typ string, act bool) {
 		op := "Rt.setIdx "
 		if lv.ctyp == "map[string]string" {
 			op = "Rt.mapSet "
+		} else if lv.ctyp == "map[string]bool" {
+			op = "Rt.bmapSet "
 		}
 		if lv.field == "" {
 			g.emit(lv.name + " ← " + op + lv.name + " " + lv.index + " " + code)
